@@ -485,9 +485,12 @@ namespace Pistache::Http
 
             if (available + alreadyAppendedChunkBytes < size + 2)
             {
-                cursor.advance(available);
-                message->body_.append(chunkData.rawText(), available);
-                alreadyAppendedChunkBytes += available;
+                // Take the chunk's data only: a first byte of the CRLF that ends
+                // the chunk stays in the buffer until the CRLF is complete.
+                const ssize_t data = std::min(available, size - alreadyAppendedChunkBytes);
+                cursor.advance(data);
+                message->body_.append(chunkData.rawText(), data);
+                alreadyAppendedChunkBytes += data;
                 return Incomplete;
             }
             cursor.advance(size - alreadyAppendedChunkBytes);
